@@ -326,6 +326,7 @@ fn tui_state(app: &Jet1090) -> Value {
         "width": app.width,
         "n": app.items.len(),
         "tracked": app.state_vectors.len(),
+        "qbytes": app.search_query.chars().map(|c| c.len_utf8()).collect::<Vec<usize>>(),
     })
 }
 
@@ -366,7 +367,26 @@ fn new_tui_app(n_items: usize, n_tracked: usize, width: u16) -> Jet1090 {
     app
 }
 
+/// Applies one event to the real update(); Ok(state) or Err(panic text).
+fn tui_press(app: &Mutex<Jet1090>, ev: Event) -> Result<Value, String> {
+    let res = catch_unwind(AssertUnwindSafe(|| {
+        let mut guard = app.try_lock().unwrap();
+        crate::update(&mut guard, ev).is_ok()
+    }));
+    match res {
+        Ok(ok) => {
+            let mut st = tui_state(&app.try_lock().unwrap());
+            st["ok"] = json!(ok);
+            Ok(st)
+        }
+        Err(e) => Err(panic_text(e)),
+    }
+}
+
 /// {"cmd":"tui","n":rows,"tracked":m,"keys":["j","Esc","Tick:80",...]}
+/// With "fan":[k1,k2,...]: after the keys, every fan key is applied on its own to the
+/// state the keys lead to (the table is rebuilt and the keys replayed for each one,
+/// Jet1090 is not Clone); "before" is that state, "fan" the outcome of each fan key.
 fn tui(req: &Value) -> Value {
     let n = req["n"].as_u64().unwrap_or(0) as usize;
     let m = req["tracked"].as_u64().unwrap_or(0) as usize;
@@ -374,32 +394,60 @@ fn tui(req: &Value) -> Value {
     let app = Mutex::new(new_tui_app(n, m, 100));
     let mut states = Vec::new();
     let init = tui_state(&app.try_lock().unwrap());
+    let mut complete = true;
     for k in keys.iter() {
         let name = k.as_str().unwrap_or("");
         let ev = match key_of(name) {
             Some(e) => e,
             None => {
                 states.push(json!({"error": format!("unknown key {name}")}));
+                complete = false;
                 break;
             }
         };
-        let res = catch_unwind(AssertUnwindSafe(|| {
-            let mut guard = app.try_lock().unwrap();
-            crate::update(&mut guard, ev).is_ok()
-        }));
-        match res {
-            Ok(ok) => {
-                let mut st = tui_state(&app.try_lock().unwrap());
-                st["ok"] = json!(ok);
-                states.push(st);
-            }
-            Err(e) => {
-                states.push(json!({"panic": panic_text(e)}));
+        match tui_press(&app, ev) {
+            Ok(st) => states.push(st),
+            Err(p) => {
+                states.push(json!({"panic": p}));
+                complete = false;
                 break;
             }
         }
     }
-    json!({"cmd": "tui", "init": init, "states": states})
+    let mut reply = json!({"cmd": "tui", "init": init, "states": states});
+    if let Some(fan) = req["fan"].as_array() {
+        let mut outs = Vec::new();
+        if complete {
+            // the states along the keys were the fan results of shorter requests
+            reply["states"] = json!([]);
+            reply["before"] = tui_state(&app.try_lock().unwrap());
+            for f in fan.iter() {
+                let name = f.as_str().unwrap_or("");
+                let fresh = Mutex::new(new_tui_app(n, m, 100));
+                let mut replayed = true;
+                for k in keys.iter() {
+                    let ev = key_of(k.as_str().unwrap_or(""));
+                    if ev.is_none() || tui_press(&fresh, ev.unwrap()).is_err() {
+                        replayed = false;
+                        break;
+                    }
+                }
+                if !replayed {
+                    outs.push(json!({"error": "prefix not replayable"}));
+                    continue;
+                }
+                match key_of(name) {
+                    None => outs.push(json!({"error": format!("unknown key {name}")})),
+                    Some(ev) => match tui_press(&fresh, ev) {
+                        Ok(st) => outs.push(st),
+                        Err(p) => outs.push(json!({"panic": p})),
+                    },
+                }
+            }
+        }
+        reply["fan"] = Value::Array(outs);
+    }
+    reply
 }
 
 // --------------------------------------------------------------- source (C16)
